@@ -2,7 +2,7 @@
    Statements only; proofs in Proofs/EditProofs.v.  The model of construction is
    [Wire.HeaderEdit.build] followed by the specification encoder; the
    DBusTypeWriter is tied to it byte-for-byte by the correspondence run. *)
-From DV Require Import Lib.Base Spec.Codec Wire.HeaderEdit Proofs.EditProofs Proofs.CodecWf Proofs.CodecRoundtrip Proofs.CodecMessage.
+From DV Require Import Lib.Base Spec.Codec Wire.HeaderEdit Proofs.EditProofs Proofs.CodecWf Proofs.CodecRoundtrip Proofs.CodecMessage Proofs.SigRoundtrip.
 Local Open Scope N_scope.
 
 (* THE ROUND TRIP, message level: the specification decoder applied to the
@@ -12,13 +12,23 @@ Local Open Scope N_scope.
    predicate: type/flags/serial in range, header fields valid per the
    specification's table and mandatory for the type, SIGNATURE field = signature
    of the body, every value well-formed ([wfb]), sizes within 2^26 / 2^27.
-   Its two signature premises (a variant's contained type and the body
-   signature print and parse back to themselves) hold for every valid type but
-   are checked per message rather than proved once and for all. *)
+   Its signature premises (a variant's contained type and the body signature print
+   and parse back to themselves) hold for every well-formed type within the limits:
+   C02_variant_wellformed below and C16_signature_print_parse. *)
 Theorem C02_roundtrip : forall m, wf_msg m = true ->
   spec_decode_message (spec_encode_message m) = Some (m, nlen (spec_encode_message m)).
 Proof. exact message_roundtrip. Qed.
 Print Assumptions C02_roundtrip.
+
+(* the signature premise inside [wfb] for variants is no extra assumption: it holds for
+   every well-formed contained type within the specification's limits *)
+Theorem C02_variant_wellformed : forall le depth pos t x,
+  ty_of_val x = t -> ty_okb t = true ->
+  nlen (print_ty t) <= 255 -> array_nest t <= 32 -> struct_nest t <= 32 ->
+  wfb le (depth + 1) (pos + (nlen (print_ty t) + 2)) x = true ->
+  wfb le depth pos (VVar t x) = true.
+Proof. exact wfb_variant. Qed.
+Print Assumptions C02_variant_wellformed.
 
 (* built messages, and their conversion to the other byte order *)
 Corollary C02_built_roundtrip : forall le t f s es body,
